@@ -11,7 +11,7 @@
    equal values in Python's tuple order; two NaN-valued ones: payload order. *)
 From Coq Require Import List Sorting Permutation ZArith String Bool Lia Arith QArith Reals.
 From CC Require Import Base.XQ Base.SortX Spec.OrderSpec Model.Collator Model.SortKeys
-  Proofs.OrderVisible Proofs.OrderSbv Proofs.SortKeysProofs Proofs.SortKeysResolve
+  Proofs.OrderVisible Proofs.SbvDedup Proofs.OrderSbv Proofs.SortKeysProofs Proofs.SortKeysResolve
   Proofs.SortKeysReals.
 Import ListNotations.
 Local Close Scope Q_scope.
@@ -19,9 +19,46 @@ Local Close Scope R_scope.
 Local Open Scope nat_scope.
 
 (* ---- shape ------------------------------------------------------------------------------------------ *)
-(* display = visible part of  subtotal group (if descending) ++ fixed top ++ sorted body ++ NaN bucket
-   ++ fixed bottom ++ subtotal group (if ascending) *)
+(* The collator concatenates  subtotal group (if descending) ++ fixed top ++ sorted body ++ NaN bucket
+   ++ fixed bottom ++ subtotal group (if ascending),  drops the hidden elements and keeps the FIRST
+   mention of every index (tuple(dict.fromkeys(...)), since the repair of finding C05-fixed-repeats).
+   [sbv_plain] is the list before that last step. *)
+Theorem C08_sbv_first_mentions d s vals svals empties :
+  sbv_display d s vals svals empties = first_mentions (sbv_plain d s vals svals empties).
+Proof. exact (sbv_display_first_mentions d s vals svals empties). Qed.
+Print Assumptions C08_sbv_first_mentions.
+
+(* For ANY fixed lists (ids repeated inside a list, named at both ends, stale ids): the display is the
+   visible part of that concatenation with the fixed groups of [fixed_normal s] - every id where it is
+   first mentioned: once inside a list, and an id of fixed.top is ignored in fixed.bottom - while the
+   body leaves out every element that s names in either list (a fixed element never appears in the
+   body, C08_body_members / C08_nans_members). *)
 Theorem C08_sbv_shape d s vals svals empties :
+  sbv_display d s vals svals empties =
+  let ids := d_ids d in
+  let top := fixed_idxs ids (s_top (fixed_normal s)) in
+  let bottom := fixed_idxs ids (s_bottom (fixed_normal s)) in
+  let fixed := fixed_idxs ids (s_top s) ++ fixed_idxs ids (s_bottom s) in
+  let subs := map snd (sort_vkeys (s_desc s) (subtotal_keys svals)) ++ subtotal_nans svals in
+  displayed (collator_hidden d empties)
+    ((if s_desc s then subs else [])
+     ++ map Z.of_nat top
+     ++ (map snd (sort_vkeys (s_desc s) (body_keys vals fixed)) ++ body_nans vals fixed)
+     ++ map Z.of_nat bottom
+     ++ (if s_desc s then [] else subs)).
+Proof. exact (sbv_shape d s vals svals empties). Qed.
+Print Assumptions C08_sbv_shape.
+
+(* the same in one line: the display order under s IS the plain concatenation under [fixed_normal s] *)
+Theorem C08_sbv_normal d s vals svals empties :
+  sbv_display d s vals svals empties = sbv_plain d (fixed_normal s) vals svals empties.
+Proof. exact (sbv_display_normal d s vals svals empties). Qed.
+Print Assumptions C08_sbv_normal.
+
+(* When no element of the dimension is named twice in fixed.top ++ fixed.bottom ([fixed_once]; stale ids
+   may repeat) the fixed lists stand as they are listed. *)
+Theorem C08_sbv_shape_fixed_once d s vals svals empties :
+  fixed_once (d_ids d) s ->
   sbv_display d s vals svals empties =
   let ids := d_ids d in
   let top := fixed_idxs ids (s_top s) in
@@ -34,12 +71,25 @@ Theorem C08_sbv_shape d s vals svals empties :
          ++ body_nans vals (top ++ bottom))
      ++ map Z.of_nat bottom
      ++ (if s_desc s then [] else subs)).
-Proof. exact (sbv_shape d s vals svals empties). Qed.
-Print Assumptions C08_sbv_shape.
+Proof. exact (sbv_shape_fixed_once d s vals svals empties). Qed.
+Print Assumptions C08_sbv_shape_fixed_once.
 
 (* the fixed-top and fixed-bottom elements bracket the free base elements; the subtotal group is
    first when descending, last when ascending *)
 Theorem C08_brackets d s vals svals empties :
+  sbv_display d s vals svals empties =
+  displayed (collator_hidden d empties)
+    ((if s_desc s then subtotal_idxs (s_desc s) svals else [])
+     ++ map Z.of_nat (fixed_idxs (d_ids d) (s_top (fixed_normal s))))
+  ++ displayed (collator_hidden d empties) (body_idxs (s_desc s) vals (all_fixed d s))
+  ++ displayed (collator_hidden d empties)
+       (map Z.of_nat (fixed_idxs (d_ids d) (s_bottom (fixed_normal s)))
+        ++ (if s_desc s then [] else subtotal_idxs (s_desc s) svals)).
+Proof. exact (display_brackets d s vals svals empties). Qed.
+Print Assumptions C08_brackets.
+
+Theorem C08_brackets_fixed_once d s vals svals empties :
+  fixed_once (d_ids d) s ->
   sbv_display d s vals svals empties =
   displayed (collator_hidden d empties)
     ((if s_desc s then subtotal_idxs (s_desc s) svals else [])
@@ -48,8 +98,8 @@ Theorem C08_brackets d s vals svals empties :
   ++ displayed (collator_hidden d empties)
        (map Z.of_nat (fixed_idxs (d_ids d) (s_bottom s))
         ++ (if s_desc s then [] else subtotal_idxs (s_desc s) svals)).
-Proof. exact (display_brackets d s vals svals empties). Qed.
-Print Assumptions C08_brackets.
+Proof. exact (display_brackets_fixed_once d s vals svals empties). Qed.
+Print Assumptions C08_brackets_fixed_once.
 
 (* ---- the value-sorted body ---------------------------------------------------------------------------- *)
 Theorem C08_body_sorted desc (vals : list sval) fixed :
@@ -134,6 +184,39 @@ Theorem C08_fixed_listed ids listed :
   = flat_map (fun i => match first_index i ids with Some k => [k] | None => [] end) listed.
 Proof. exact (fixed_listed ids listed). Qed.
 Print Assumptions C08_fixed_listed.
+
+(* a fixed group only holds indexes of elements whose id is listed (any element ids) *)
+Theorem C08_fixed_members ids listed k :
+  In k (fixed_idxs ids listed) -> k < List.length ids /\ In (nth k ids INone) listed.
+Proof. exact (fixed_idxs_listed ids listed k). Qed.
+Print Assumptions C08_fixed_members.
+
+(* first mention wins, inside one list: keeping the first mention of every index = keeping the first
+   mention of every id ... *)
+Theorem C08_fixed_first_mention ids listed :
+  first_mentions (map Z.of_nat (fixed_idxs ids listed))
+  = map Z.of_nat (fixed_idxs ids (dedup_first listed)).
+Proof. exact (fixed_first_mentions ids listed). Qed.
+Print Assumptions C08_fixed_first_mention.
+
+(* ... and across the lists: dropping from the bottom group the indexes the top group holds = dropping
+   from fixed.bottom the ids fixed.top names *)
+Theorem C08_fixed_top_before_bottom ids top listed :
+  filter (znotin (map Z.of_nat (fixed_idxs ids top))) (map Z.of_nat (fixed_idxs ids listed))
+  = map Z.of_nat (fixed_idxs ids (filter (fun i => negb (imem i top)) listed)).
+Proof. exact (fixed_bottom_minus_top ids top listed). Qed.
+Print Assumptions C08_fixed_top_before_bottom.
+
+(* the normalised lists fix the same elements, and name none of them twice *)
+Theorem C08_fixed_normal_members ids s k :
+  In k (fixed_idxs ids (s_top (fixed_normal s)) ++ fixed_idxs ids (s_bottom (fixed_normal s)))
+  <-> In k (fixed_idxs ids (s_top s) ++ fixed_idxs ids (s_bottom s)).
+Proof. exact (fixed_normal_members ids s k). Qed.
+Print Assumptions C08_fixed_normal_members.
+
+Theorem C08_fixed_normal_once ids s : fixed_once ids (fixed_normal s).
+Proof. exact (fixed_normal_once ids s). Qed.
+Print Assumptions C08_fixed_normal_once.
 
 (* ---- surrogate sort keys ---------------------------------------------------------------------------------- *)
 (* a list that is value-sorted on the key is weakly sorted (NaN last in payload order) for every
@@ -403,6 +486,25 @@ Example C08_example_ascending :
   rows_order ex_dim (ex_req (IInt 2) "col_percent" false) ex_opp ex_env (fun _ => None) [] [] [] false
   = Ok [4; 0; 3; 1; -2; -1]%Z.
 Proof. vm_compute. reflexivity. Qed.
+
+(* repeated fixed ids: 50 twice at the top and again at the bottom, 10 twice at the bottom - each is shown
+   once, where it is first mentioned (50 at the top, 10 at the bottom) *)
+Definition ex_req_repeats (desc : bool) : order_req :=
+  mkOrd (Some "opposing_element") (Some "col_percent") None (Some (IInt 2)) None
+        (mkSort desc [IInt 50; IInt 77; IInt 50] [IInt 10; IInt 50; IInt 10]) [].
+Example C08_example_repeated_fixed :
+  rows_order ex_dim (ex_req_repeats true) ex_opp ex_env (fun _ => None) [] [] [] false
+  = Ok [-1; -2; 4; 3; 1; 0]%Z
+  /\ rows_order ex_dim (ex_req_repeats false) ex_opp ex_env (fun _ => None) [] [] [] false
+     = Ok [4; 3; 1; 0; -2; -1]%Z
+  /\ fixed_normal (o_spec (ex_req_repeats true)) = mkSort true [IInt 50; IInt 77] [IInt 10]
+  /\ ~ fixed_once (d_ids ex_dim) (o_spec (ex_req_repeats true))
+  /\ fixed_once (d_ids ex_dim) (o_spec (ex_req (IInt 2) "col_percent" true)).
+Proof.
+  split; [vm_compute; reflexivity|split; [vm_compute; reflexivity|split; [vm_compute; reflexivity|split]]].
+  - unfold fixed_once. vm_compute. intros N. inversion N as [|? ? H _]. apply H. simpl. auto.
+  - unfold fixed_once. vm_compute. repeat constructor; simpl; intuition discriminate.
+Qed.
 
 (* unknown opposing element / measure absent from the response: the anchored payload order *)
 Example C08_example_fallback :
